@@ -128,6 +128,7 @@ inductive TEv
   | m (e : CEv)
   | ret (id : Nat) (res : String)
   | gnew (a : List (TP × Int))
+  | fetch (ok : Bool)
   | sub (a : List (TP × Int))
 
 def parseB (s : String) : Option Bool := if s == "1" then some true else if s == "0" then some false else none
@@ -147,6 +148,7 @@ def parseTEv (tok : String) : Option TEv :=
   | ["genEnd"] => some (.m .genEnd)
   | ["endLoop"] => some (.m .endLoop)
   | ["gnew", a] => do some (.gnew (← parseEntries a))
+  | ["fetch", ok] => do some (.fetch (← parseB ok))
   | ["sub", a] => do some (.sub (← parseEntries a))
   | _ => none
 
@@ -200,6 +202,18 @@ def monSubscribe (es : List TEv) : Option String :=
       | _ => some "subscribe-without-generation"
     | _ => none) [] es 0
 
+/-- a generation exists only after a successful OffsetFetch: the last OffsetFetch answer before a generation is created
+(since the previous generation) must be a success — whatever the error class of a failed one -/
+def monFetchBeforeGen (es : List TEv) : Option String :=
+  scan (fun past e =>
+    match e with
+    | .gnew _ =>
+      match past.find? (fun p => match p with | .fetch _ => true | .gnew _ => true | _ => false) with
+      | some (.fetch true) => none
+      | some (.fetch false) => some "generation-after-failed-offset-fetch"
+      | _ => some "generation-without-offset-fetch"
+    | _ => none) [] es 0
+
 def showLPC (p : LPC) : String := (((toString (repr p)).replace "\n" " ").take 120).toString
 
 def opTrace (mode evs : String) : String :=
@@ -211,7 +225,7 @@ def opTrace (mode evs : String) : String :=
     let acc := match cfirstReject {} mevs 0 with
       | none => "ok"
       | some (i, s) => s!"reject@{i}-of-model-events:{showLPC s.pc}"
-    let ms := [monCommitLeHanded es, monSyncRecorded sync es, monSubscribe es].filterMap id
+    let ms := [monCommitLeHanded es, monSyncRecorded sync es, monSubscribe es, monFetchBeforeGen es].filterMap id
     let m := if ms.isEmpty then acc else acc ++ " mon=" ++ ",".intercalate ms
     s!"model={m} holds={if ms.isEmpty then 1 else 0}"
   | none => s!"bad-op {(toks.find? (fun t => (parseTEv t).isNone)).getD "?"}"
@@ -292,7 +306,8 @@ def monResume (es : List GTok) : Option String :=
         | some (.commit _ o _) => o | _ => 0
       if st == c then none else some s!"resume-not-at-commit:m{m}:{st}!={c}"
     | .sub m st =>
-      match past.find? (fun p => match p with | .assign m' _ => m' == m | _ => false) with
+      -- since this member's previous subscription there must be a (successful) OffsetFetch answer for it
+      match past.find? (fun p => match p with | .assign m' _ => m' == m | .sub m' _ => m' == m | _ => false) with
       | some (.assign _ st') => if st == st' then none else some s!"subscribe-differs:m{m}"
       | _ => some s!"subscribe-without-fetch:m{m}"
     | _ => none) [] es 0
@@ -330,6 +345,9 @@ def answer (line : String) : String :=
     | ["assign", start, topics, subs, resp] => opAssign start topics subs resp impl
     | ["ctrace", mode, evs] => opTrace mode evs
     | ["gtrace", _tp, evs] => opGTrace evs
+    | ["assignerr", _code] =>
+      -- a failed OffsetFetch never yields assignments (hypothesis of start_at_committed)
+      s!"model=err holds={if impl == "err" then 1 else 0}"
     | ["d8reader"] =>
       -- observation: after the forced late-unsubscribe schedule the next generation's fetchers are still running
       s!"model=alive holds={if impl == "alive" then 1 else 0}"
